@@ -35,7 +35,13 @@ inductive Intervals
   | other                              -- list, float, str, …
   deriving Repr
 
-/-- `IntervalSegmenter.fit`: `intervals_` as a list of integer arrays -/
+/-- `np.array([split[0], split[-1] + 1])`: the `[start, end)` pair of one `array_split` piece -/
+def splitToPair (blk : List Int) : Except Err (List Int) :=
+  match blk.head?, blk.getLast? with
+  | some s, some e => .ok [s, e + 1]
+  | _, _ => .error .index
+
+/-- `IntervalSegmenter.fit`: `intervals_` as a list of integer arrays (rows `[start, end)`) -/
 def isegFit (iv : Intervals) (X : Panel) : Except Err (List (List Int)) := do
   let tbl ← univariateTable X
   let n := (tbl.head?.getD []).length
@@ -44,7 +50,7 @@ def isegFit (iv : Intervals) (X : Panel) : Except Err (List (List Int)) := do
   | .count k =>
     if ¬ (k ≤ ((n / 2 : Nat) : Int)) then .error .value
     else if k ≤ 0 then .error .value            -- np.array_split: number sections must be larger than 0
-    else pure (arraySplit n k.toNat)
+    else (arraySplit n k.toNat).mapM splitToPair
   | .other => .error .value
 
 /-- Python slice `xs[start:end]` (negative bounds count from the end, out-of-range bounds clamp) -/
